@@ -46,7 +46,7 @@ pub fn bin(op: BinOp, l: Expr, r: Expr) -> Expr { Expr::Binary { op, left: Box::
 /// literal arm — proved separately by the cells C10/eval-literal/*), an expression structurally identical to the original has the original's
 /// value (the evaluator is a function of the expression), anything else is evaluated.  Matching on the shape keeps every evaluated tree
 /// concrete-shaped for CBMC (measured: evaluating an if-then-else of two tree shapes does not finish).
-pub fn value_of_folded(folded: &Expr, orig: &Expr, vo: &Option<Value>, depth: u8) -> bool {
+pub fn value_of_folded(folded: &Expr, orig: &Expr, vo: &Option<Value>, depth: u8, lit_only: bool) -> bool {
     match folded {
         Expr::Int(v) => same(vo, &Some(Value::Int(*v))),
         Expr::Float(v) => same(vo, &Some(Value::Float(*v))),
@@ -54,6 +54,12 @@ pub fn value_of_folded(folded: &Expr, orig: &Expr, vo: &Option<Value>, depth: u8
         Expr::Null => same(vo, &Some(Value::Null)),
         other => {
             if same_tree(other, orig, depth) { return true; }
+            // `lit_only` cells (both operands literals with SYMBOLIC values): the folder can only answer with a literal or with the
+            // unchanged tree.  Under Kani any other answer is reported as a refutation WITHOUT evaluating it (evaluating a tree whose
+            // shape depends on symbolic data does not finish, measured); the native replay below evaluates it for real, so an
+            // equivalent-but-different rewrite does not reproduce and ends as undecided, never as a violation.
+            #[cfg(kani)]
+            if lit_only { return false; }
             let b = ev(other);
             let ok = same(vo, &b);
             std::mem::forget(b);
@@ -62,11 +68,14 @@ pub fn value_of_folded(folded: &Expr, orig: &Expr, vo: &Option<Value>, depth: u8
     }
 }
 /// fold_binary(op, l, r) computes what Binary{op, l, r} computes
-pub fn check_fold_binary(op: BinOp, l: Expr, r: Expr) -> bool {
+pub fn check_fold_binary(op: BinOp, l: Expr, r: Expr) -> bool { check_fold_binary_x(op, l, r, false) }
+/// both operands are literals with symbolic values
+pub fn check_fold_lits(op: BinOp, l: Expr, r: Expr) -> bool { check_fold_binary_x(op, l, r, true) }
+pub fn check_fold_binary_x(op: BinOp, l: Expr, r: Expr, lit_only: bool) -> bool {
     let orig = bin(op, l.clone(), r.clone());
     let folded = __vpv_fold_binary(op, l, r);
     let vo = ev(&orig);
-    let ok = value_of_folded(&folded, &orig, &vo, 2);
+    let ok = value_of_folded(&folded, &orig, &vo, 2, lit_only);
     std::mem::forget(vo); std::mem::forget(orig); std::mem::forget(folded);
     ok
 }
@@ -74,14 +83,14 @@ pub fn check_fold_unary(op: UnaryOp, x: Expr) -> bool {
     let orig = Expr::Unary { op, expr: Box::new(x.clone()) };
     let folded = __vpv_fold_unary(op, x);
     let vo = ev(&orig);
-    let ok = value_of_folded(&folded, &orig, &vo, 2);
+    let ok = value_of_folded(&folded, &orig, &vo, 2, false);
     std::mem::forget(vo); std::mem::forget(orig); std::mem::forget(folded);
     ok
 }
 pub fn check_fold_expr(e: Expr) -> bool {
     let folded = __vpv_fold_expr(e.clone());
     let vo = ev(&e);
-    let ok = value_of_folded(&folded, &e, &vo, 3);
+    let ok = value_of_folded(&folded, &e, &vo, 3, false);
     std::mem::forget(vo); std::mem::forget(e); std::mem::forget(folded);
     ok
 }
@@ -110,25 +119,25 @@ pub fn dyn_leaf(lit: Expr) -> Expr { Expr::If { cond: Box::new(Expr::Bool(true))
 #[cfg(kani)] pub fn stub_collect_emitted_event(_e: Event) {}
 #[cfg(kani)] pub fn stub_call_user_function(_f: &UserFunction, _a: &[Value], _e: &Event, _c: &SequenceContext, _fs: &FxHashMap<String, UserFunction>) -> Option<Value> { None }
 
-vpv_cell!(#[kani::unwind(6)] #[kani::stub(eval_filter_expr, stub_eval_filter_expr)] #[kani::stub(collect_emitted_event, stub_collect_emitted_event)] #[kani::stub(call_user_function, stub_call_user_function)] c10_lit_add_int_int, "C10/fold_binary/literal/Add/Int-Int", (a: i64, b: i64), { check_fold_binary(BinOp::Add, Expr::Int(a), Expr::Int(b)) });
-vpv_cell!(#[kani::unwind(6)] #[kani::stub(eval_filter_expr, stub_eval_filter_expr)] #[kani::stub(collect_emitted_event, stub_collect_emitted_event)] #[kani::stub(call_user_function, stub_call_user_function)] c10_lit_sub_int_int, "C10/fold_binary/literal/Sub/Int-Int", (a: i64, b: i64), { check_fold_binary(BinOp::Sub, Expr::Int(a), Expr::Int(b)) });
-vpv_cell!(#[kani::unwind(6)] #[kani::stub(eval_filter_expr, stub_eval_filter_expr)] #[kani::stub(collect_emitted_event, stub_collect_emitted_event)] #[kani::stub(call_user_function, stub_call_user_function)] c10_lit_mul_int_int, "C10/fold_binary/literal/Mul/Int-Int", (a: i64, b: i64), { check_fold_binary(BinOp::Mul, Expr::Int(a), Expr::Int(b)) });
-vpv_cell!(#[kani::unwind(6)] #[kani::stub(eval_filter_expr, stub_eval_filter_expr)] #[kani::stub(collect_emitted_event, stub_collect_emitted_event)] #[kani::stub(call_user_function, stub_call_user_function)] c10_lit_div_int_int, "C10/fold_binary/literal/Div/Int-Int", (a: i64, b: i64), { check_fold_binary(BinOp::Div, Expr::Int(a), Expr::Int(b)) });
-vpv_cell!(#[kani::unwind(6)] #[kani::stub(eval_filter_expr, stub_eval_filter_expr)] #[kani::stub(collect_emitted_event, stub_collect_emitted_event)] #[kani::stub(call_user_function, stub_call_user_function)] c10_lit_mod_int_int, "C10/fold_binary/literal/Mod/Int-Int", (a: i64, b: i64), { check_fold_binary(BinOp::Mod, Expr::Int(a), Expr::Int(b)) });
-vpv_cell!(#[kani::unwind(6)] #[kani::stub(eval_filter_expr, stub_eval_filter_expr)] #[kani::stub(collect_emitted_event, stub_collect_emitted_event)] #[kani::stub(call_user_function, stub_call_user_function)] c10_lit_add_float_float, "C10/fold_binary/literal/Add/Float-Float", (a: f64, b: f64), { check_fold_binary(BinOp::Add, Expr::Float(a), Expr::Float(b)) });
-vpv_cell!(#[kani::unwind(6)] #[kani::stub(eval_filter_expr, stub_eval_filter_expr)] #[kani::stub(collect_emitted_event, stub_collect_emitted_event)] #[kani::stub(call_user_function, stub_call_user_function)] c10_lit_sub_float_float, "C10/fold_binary/literal/Sub/Float-Float", (a: f64, b: f64), { check_fold_binary(BinOp::Sub, Expr::Float(a), Expr::Float(b)) });
-vpv_cell!(#[kani::unwind(6)] #[kani::stub(eval_filter_expr, stub_eval_filter_expr)] #[kani::stub(collect_emitted_event, stub_collect_emitted_event)] #[kani::stub(call_user_function, stub_call_user_function)] c10_lit_mul_float_float, "C10/fold_binary/literal/Mul/Float-Float", (a: f64, b: f64), { check_fold_binary(BinOp::Mul, Expr::Float(a), Expr::Float(b)) });
-vpv_cell!(#[kani::unwind(6)] #[kani::stub(eval_filter_expr, stub_eval_filter_expr)] #[kani::stub(collect_emitted_event, stub_collect_emitted_event)] #[kani::stub(call_user_function, stub_call_user_function)] c10_lit_div_float_float, "C10/fold_binary/literal/Div/Float-Float", (a: f64, b: f64), { check_fold_binary(BinOp::Div, Expr::Float(a), Expr::Float(b)) });
-vpv_cell!(#[kani::unwind(6)] #[kani::stub(eval_filter_expr, stub_eval_filter_expr)] #[kani::stub(collect_emitted_event, stub_collect_emitted_event)] #[kani::stub(call_user_function, stub_call_user_function)] c10_lit_mod_float_float, "C10/fold_binary/literal/Mod/Float-Float", (a: f64, b: f64), { check_fold_binary(BinOp::Mod, Expr::Float(a), Expr::Float(b)) });
-vpv_cell!(#[kani::unwind(6)] #[kani::stub(eval_filter_expr, stub_eval_filter_expr)] #[kani::stub(collect_emitted_event, stub_collect_emitted_event)] #[kani::stub(call_user_function, stub_call_user_function)] c10_lit_pow_float_float, "C10/fold_binary/literal/Pow/Float-Float", (a: f64, b: f64), { check_fold_binary(BinOp::Pow, Expr::Float(a), Expr::Float(b)) });
-vpv_cell!(#[kani::unwind(6)] #[kani::stub(eval_filter_expr, stub_eval_filter_expr)] #[kani::stub(collect_emitted_event, stub_collect_emitted_event)] #[kani::stub(call_user_function, stub_call_user_function)] c10_lit_add_int_float, "C10/fold_binary/literal/Add/Int-Float", (a: i64, b: f64), { check_fold_binary(BinOp::Add, Expr::Int(a), Expr::Float(b)) });
-vpv_cell!(#[kani::unwind(6)] #[kani::stub(eval_filter_expr, stub_eval_filter_expr)] #[kani::stub(collect_emitted_event, stub_collect_emitted_event)] #[kani::stub(call_user_function, stub_call_user_function)] c10_lit_add_float_int, "C10/fold_binary/literal/Add/Float-Int", (a: f64, b: i64), { check_fold_binary(BinOp::Add, Expr::Float(a), Expr::Int(b)) });
-vpv_cell!(#[kani::unwind(6)] #[kani::stub(eval_filter_expr, stub_eval_filter_expr)] #[kani::stub(collect_emitted_event, stub_collect_emitted_event)] #[kani::stub(call_user_function, stub_call_user_function)] c10_lit_sub_int_float, "C10/fold_binary/literal/Sub/Int-Float", (a: i64, b: f64), { check_fold_binary(BinOp::Sub, Expr::Int(a), Expr::Float(b)) });
-vpv_cell!(#[kani::unwind(6)] #[kani::stub(eval_filter_expr, stub_eval_filter_expr)] #[kani::stub(collect_emitted_event, stub_collect_emitted_event)] #[kani::stub(call_user_function, stub_call_user_function)] c10_lit_sub_float_int, "C10/fold_binary/literal/Sub/Float-Int", (a: f64, b: i64), { check_fold_binary(BinOp::Sub, Expr::Float(a), Expr::Int(b)) });
-vpv_cell!(#[kani::unwind(6)] #[kani::stub(eval_filter_expr, stub_eval_filter_expr)] #[kani::stub(collect_emitted_event, stub_collect_emitted_event)] #[kani::stub(call_user_function, stub_call_user_function)] c10_lit_mul_int_float, "C10/fold_binary/literal/Mul/Int-Float", (a: i64, b: f64), { check_fold_binary(BinOp::Mul, Expr::Int(a), Expr::Float(b)) });
-vpv_cell!(#[kani::unwind(6)] #[kani::stub(eval_filter_expr, stub_eval_filter_expr)] #[kani::stub(collect_emitted_event, stub_collect_emitted_event)] #[kani::stub(call_user_function, stub_call_user_function)] c10_lit_mul_float_int, "C10/fold_binary/literal/Mul/Float-Int", (a: f64, b: i64), { check_fold_binary(BinOp::Mul, Expr::Float(a), Expr::Int(b)) });
-vpv_cell!(#[kani::unwind(6)] #[kani::stub(eval_filter_expr, stub_eval_filter_expr)] #[kani::stub(collect_emitted_event, stub_collect_emitted_event)] #[kani::stub(call_user_function, stub_call_user_function)] c10_lit_div_int_float, "C10/fold_binary/literal/Div/Int-Float", (a: i64, b: f64), { check_fold_binary(BinOp::Div, Expr::Int(a), Expr::Float(b)) });
-vpv_cell!(#[kani::unwind(6)] #[kani::stub(eval_filter_expr, stub_eval_filter_expr)] #[kani::stub(collect_emitted_event, stub_collect_emitted_event)] #[kani::stub(call_user_function, stub_call_user_function)] c10_lit_div_float_int, "C10/fold_binary/literal/Div/Float-Int", (a: f64, b: i64), { check_fold_binary(BinOp::Div, Expr::Float(a), Expr::Int(b)) });
+vpv_cell!(#[kani::unwind(6)] #[kani::stub(eval_filter_expr, stub_eval_filter_expr)] #[kani::stub(collect_emitted_event, stub_collect_emitted_event)] #[kani::stub(call_user_function, stub_call_user_function)] c10_lit_add_int_int, "C10/fold_binary/literal/Add/Int-Int", (a: i64, b: i64), { check_fold_lits(BinOp::Add, Expr::Int(a), Expr::Int(b)) });
+vpv_cell!(#[kani::unwind(6)] #[kani::stub(eval_filter_expr, stub_eval_filter_expr)] #[kani::stub(collect_emitted_event, stub_collect_emitted_event)] #[kani::stub(call_user_function, stub_call_user_function)] c10_lit_sub_int_int, "C10/fold_binary/literal/Sub/Int-Int", (a: i64, b: i64), { check_fold_lits(BinOp::Sub, Expr::Int(a), Expr::Int(b)) });
+vpv_cell!(#[kani::unwind(6)] #[kani::stub(eval_filter_expr, stub_eval_filter_expr)] #[kani::stub(collect_emitted_event, stub_collect_emitted_event)] #[kani::stub(call_user_function, stub_call_user_function)] c10_lit_mul_int_int, "C10/fold_binary/literal/Mul/Int-Int", (a: i64, b: i64), { check_fold_lits(BinOp::Mul, Expr::Int(a), Expr::Int(b)) });
+vpv_cell!(#[kani::unwind(6)] #[kani::stub(eval_filter_expr, stub_eval_filter_expr)] #[kani::stub(collect_emitted_event, stub_collect_emitted_event)] #[kani::stub(call_user_function, stub_call_user_function)] c10_lit_div_int_int, "C10/fold_binary/literal/Div/Int-Int", (a: i64, b: i64), { check_fold_lits(BinOp::Div, Expr::Int(a), Expr::Int(b)) });
+vpv_cell!(#[kani::unwind(6)] #[kani::stub(eval_filter_expr, stub_eval_filter_expr)] #[kani::stub(collect_emitted_event, stub_collect_emitted_event)] #[kani::stub(call_user_function, stub_call_user_function)] c10_lit_mod_int_int, "C10/fold_binary/literal/Mod/Int-Int", (a: i64, b: i64), { check_fold_lits(BinOp::Mod, Expr::Int(a), Expr::Int(b)) });
+vpv_cell!(#[kani::unwind(6)] #[kani::stub(eval_filter_expr, stub_eval_filter_expr)] #[kani::stub(collect_emitted_event, stub_collect_emitted_event)] #[kani::stub(call_user_function, stub_call_user_function)] c10_lit_add_float_float, "C10/fold_binary/literal/Add/Float-Float", (a: f64, b: f64), { check_fold_lits(BinOp::Add, Expr::Float(a), Expr::Float(b)) });
+vpv_cell!(#[kani::unwind(6)] #[kani::stub(eval_filter_expr, stub_eval_filter_expr)] #[kani::stub(collect_emitted_event, stub_collect_emitted_event)] #[kani::stub(call_user_function, stub_call_user_function)] c10_lit_sub_float_float, "C10/fold_binary/literal/Sub/Float-Float", (a: f64, b: f64), { check_fold_lits(BinOp::Sub, Expr::Float(a), Expr::Float(b)) });
+vpv_cell!(#[kani::unwind(6)] #[kani::stub(eval_filter_expr, stub_eval_filter_expr)] #[kani::stub(collect_emitted_event, stub_collect_emitted_event)] #[kani::stub(call_user_function, stub_call_user_function)] c10_lit_mul_float_float, "C10/fold_binary/literal/Mul/Float-Float", (a: f64, b: f64), { check_fold_lits(BinOp::Mul, Expr::Float(a), Expr::Float(b)) });
+vpv_cell!(#[kani::unwind(6)] #[kani::stub(eval_filter_expr, stub_eval_filter_expr)] #[kani::stub(collect_emitted_event, stub_collect_emitted_event)] #[kani::stub(call_user_function, stub_call_user_function)] c10_lit_div_float_float, "C10/fold_binary/literal/Div/Float-Float", (a: f64, b: f64), { check_fold_lits(BinOp::Div, Expr::Float(a), Expr::Float(b)) });
+vpv_cell!(#[kani::unwind(6)] #[kani::stub(eval_filter_expr, stub_eval_filter_expr)] #[kani::stub(collect_emitted_event, stub_collect_emitted_event)] #[kani::stub(call_user_function, stub_call_user_function)] c10_lit_mod_float_float, "C10/fold_binary/literal/Mod/Float-Float", (a: f64, b: f64), { check_fold_lits(BinOp::Mod, Expr::Float(a), Expr::Float(b)) });
+vpv_cell!(#[kani::unwind(6)] #[kani::stub(eval_filter_expr, stub_eval_filter_expr)] #[kani::stub(collect_emitted_event, stub_collect_emitted_event)] #[kani::stub(call_user_function, stub_call_user_function)] c10_lit_pow_float_float, "C10/fold_binary/literal/Pow/Float-Float", (a: f64, b: f64), { check_fold_lits(BinOp::Pow, Expr::Float(a), Expr::Float(b)) });
+vpv_cell!(#[kani::unwind(6)] #[kani::stub(eval_filter_expr, stub_eval_filter_expr)] #[kani::stub(collect_emitted_event, stub_collect_emitted_event)] #[kani::stub(call_user_function, stub_call_user_function)] c10_lit_add_int_float, "C10/fold_binary/literal/Add/Int-Float", (a: i64, b: f64), { check_fold_lits(BinOp::Add, Expr::Int(a), Expr::Float(b)) });
+vpv_cell!(#[kani::unwind(6)] #[kani::stub(eval_filter_expr, stub_eval_filter_expr)] #[kani::stub(collect_emitted_event, stub_collect_emitted_event)] #[kani::stub(call_user_function, stub_call_user_function)] c10_lit_add_float_int, "C10/fold_binary/literal/Add/Float-Int", (a: f64, b: i64), { check_fold_lits(BinOp::Add, Expr::Float(a), Expr::Int(b)) });
+vpv_cell!(#[kani::unwind(6)] #[kani::stub(eval_filter_expr, stub_eval_filter_expr)] #[kani::stub(collect_emitted_event, stub_collect_emitted_event)] #[kani::stub(call_user_function, stub_call_user_function)] c10_lit_sub_int_float, "C10/fold_binary/literal/Sub/Int-Float", (a: i64, b: f64), { check_fold_lits(BinOp::Sub, Expr::Int(a), Expr::Float(b)) });
+vpv_cell!(#[kani::unwind(6)] #[kani::stub(eval_filter_expr, stub_eval_filter_expr)] #[kani::stub(collect_emitted_event, stub_collect_emitted_event)] #[kani::stub(call_user_function, stub_call_user_function)] c10_lit_sub_float_int, "C10/fold_binary/literal/Sub/Float-Int", (a: f64, b: i64), { check_fold_lits(BinOp::Sub, Expr::Float(a), Expr::Int(b)) });
+vpv_cell!(#[kani::unwind(6)] #[kani::stub(eval_filter_expr, stub_eval_filter_expr)] #[kani::stub(collect_emitted_event, stub_collect_emitted_event)] #[kani::stub(call_user_function, stub_call_user_function)] c10_lit_mul_int_float, "C10/fold_binary/literal/Mul/Int-Float", (a: i64, b: f64), { check_fold_lits(BinOp::Mul, Expr::Int(a), Expr::Float(b)) });
+vpv_cell!(#[kani::unwind(6)] #[kani::stub(eval_filter_expr, stub_eval_filter_expr)] #[kani::stub(collect_emitted_event, stub_collect_emitted_event)] #[kani::stub(call_user_function, stub_call_user_function)] c10_lit_mul_float_int, "C10/fold_binary/literal/Mul/Float-Int", (a: f64, b: i64), { check_fold_lits(BinOp::Mul, Expr::Float(a), Expr::Int(b)) });
+vpv_cell!(#[kani::unwind(6)] #[kani::stub(eval_filter_expr, stub_eval_filter_expr)] #[kani::stub(collect_emitted_event, stub_collect_emitted_event)] #[kani::stub(call_user_function, stub_call_user_function)] c10_lit_div_int_float, "C10/fold_binary/literal/Div/Int-Float", (a: i64, b: f64), { check_fold_lits(BinOp::Div, Expr::Int(a), Expr::Float(b)) });
+vpv_cell!(#[kani::unwind(6)] #[kani::stub(eval_filter_expr, stub_eval_filter_expr)] #[kani::stub(collect_emitted_event, stub_collect_emitted_event)] #[kani::stub(call_user_function, stub_call_user_function)] c10_lit_div_float_int, "C10/fold_binary/literal/Div/Float-Int", (a: f64, b: i64), { check_fold_lits(BinOp::Div, Expr::Float(a), Expr::Int(b)) });
 vpv_cell!(#[kani::unwind(6)] #[kani::stub(eval_filter_expr, stub_eval_filter_expr)] #[kani::stub(collect_emitted_event, stub_collect_emitted_event)] #[kani::stub(call_user_function, stub_call_user_function)] c10_id_mul_zero_r_float, "C10/fold_binary/identity/x*0/x=float", (f: f64), { check_fold_binary(BinOp::Mul, Expr::Float(f), Expr::Int(0)) });
 vpv_cell!(#[kani::stub(eval_filter_expr, stub_eval_filter_expr)] #[kani::stub(collect_emitted_event, stub_collect_emitted_event)] #[kani::stub(call_user_function, stub_call_user_function)] #[kani::unwind(6)] c10_id_mul_zero_r_str, "C10/fold_binary/identity/x*0/x=str", (), { check_fold_binary(BinOp::Mul, Expr::Str(String::from("ab")), Expr::Int(0)) });
 vpv_cell!(#[kani::unwind(6)] #[kani::stub(eval_filter_expr, stub_eval_filter_expr)] #[kani::stub(collect_emitted_event, stub_collect_emitted_event)] #[kani::stub(call_user_function, stub_call_user_function)] c10_id_mul_zero_r_bool, "C10/fold_binary/identity/x*0/x=bool", (b: bool), { check_fold_binary(BinOp::Mul, Expr::Bool(b), Expr::Int(0)) });
